@@ -26,7 +26,9 @@ Record case := mkcase {
   c_rt : obs;                      (* From(From(content).ToCamel()).ToSnake() *)
   c_untitle : obs;                 (* From(content).UnTitle() *)
   c_cfg : obs;                     (* config.NewConfig(tmpl): OOk cfg.NamingFormat | OErr 3 msg *)
-  c_cfgfmt : obs                   (* NewConfig(tmpl) then FileNamingFormat(cfg.NamingFormat, content); OErr 3 when NewConfig failed *)
+  c_cfgfmt : obs;                  (* NewConfig(tmpl) then FileNamingFormat(cfg.NamingFormat, content); OErr 3 when NewConfig failed *)
+  c_hist : list hop;               (* a history of configuration operations run in the same process *)
+  c_hobs : list obs                (* what each of them returned (OErr 9: no such handle) *)
 }.
 
 Definition ri_of (c : case) (r : N) : option rinfo := alookup N.eqb r (c_runes c).
@@ -75,12 +77,38 @@ Definition style_msg_ok (U : unicode) (t : str) (o : obs) : bool :=
   | _ => true
   end.
 
+(* names under which the case files (which import only this module) write history operations *)
+Definition XNew := HNew.
+Definition XSet := HSet.
+Definition XRead := HRead.
+Definition XFmt := HFmt.
+
+Fixpoint all2 {A B} (f : A -> B -> bool) (l1 : list A) (l2 : list B) : bool :=
+  match l1, l2 with
+  | [], [] => true
+  | a :: r1, b :: r2 => f a b && all2 f r1 r2
+  | _, _ => false
+  end.
+
+Definition hop_strings (o : hop) : list N :=
+  match o with HNew s => decode_all s | HSet _ v => decode_all v | HRead _ => [] | HFmt _ c0 => decode_all c0 end.
+
+Definition to_sop (o : hop) : sop :=
+  match o with HNew s => SNew s | HSet i v => SSet i v | HRead i => SRead i | HFmt i c0 => SFmt i c0 end.
+
+Definition meets (e : expect) (o : obs) : bool :=
+  match e with
+  | EOk s => obs_eqb (OOk s) o
+  | EReject => is_err o
+  | EBadHandle => match o with OErr 9 _ => true | _ => false end
+  end.
+
 (* the oracle tables cover every non-ASCII rune / word the model consults *)
 Definition tables_ok (c : case) : bool :=
   let U := unicode_of c in
   let camel := match to_camel U (c_content c) with Ok s => s | _ => [] end in
   forallb (fun r => (r <? 128) || match ri_of c r with Some _ => true | None => false end)
-          (rune_error :: decode_all (c_content c) ++ decode_all camel ++ decode_all (c_tmpl c)) &&
+          (rune_error :: decode_all (c_content c) ++ decode_all camel ++ decode_all (c_tmpl c) ++ flat_map hop_strings (c_hist c)) &&
   forallb (fun w => forallb (fun b => b <? 128) w || is_empty_or_space U w ||
                     match alookup str_eqb w (c_xt c) with Some _ => true | None => false end)
           (split_by U (fun r => r =? 95) true (c_content c)).
@@ -96,7 +124,8 @@ Definition model_ok (c : case) : bool :=
   res_matches (snake_of_camel U (c_content c)) (c_rt c) &&
   res_matches (un_title U (c_content c)) (c_untitle c) &&
   res_matches (new_config U (c_tmpl c)) (c_cfg c) &&
-  res_matches (configured_format U (c_tmpl c) (c_content c)) (c_cfgfmt c).
+  res_matches (configured_format U (c_tmpl c) (c_content c)) (c_cfgfmt c) &&
+  all2 res_matches (hrun U [] (c_hist c)) (c_hobs c).
 
 (* ---------- the property, on the observations alone ---------- *)
 Definition spec_ok (c : case) : bool :=
@@ -122,7 +151,10 @@ Definition spec_ok (c : case) : bool :=
   match spec_configured U (c_tmpl c) (c_content c) with
   | Some r => obs_eqb (c_cfgfmt c) (OOk r)
   | None => is_err (c_cfgfmt c)
-  end.
+  end &&
+  (* histories of configurations: every result is a function of the call's own argument and of what
+     was assigned to that very configuration (Spec.expected); no panic *)
+  all2 meets (expected_all U [] (map to_sop (c_hist c))) (c_hobs c).
 
 (* input classes, for the evidence's distribution (evaluated in Python from the same data) *)
 Definition accepts (c : case) : bool :=
